@@ -45,9 +45,10 @@ func withWeighting(p *ref.Program, root int, salt uint64) (*ref.Program, int) {
 }
 
 type gradOpts struct {
-	allowKF bool         // recognise the listed finding broadcast_avg
-	noValue map[int]bool // tensors whose gradient VALUE the property does not specify (nil-ness, shape, finiteness still checked)
-	tieNode int          // 1 + index of a (Leaky)Relu node whose derivative at exactly 0 is inferred from the observation and only required to lie between the one-sided derivatives (0 = none)
+	allowKF     bool         // recognise the listed finding broadcast_avg
+	noValue     map[int]bool // tensors whose gradient VALUE the property does not specify (nil-ness, shape, finiteness still checked)
+	elementwise bool         // every gradient element is judged relative to its own magnitude (graphs that are element-wise in the judged tensors)
+	tieNode     int          // 1 + index of a (Leaky)Relu node whose derivative at exactly 0 is inferred from the observation and only required to lie between the one-sided derivatives (0 = none)
 }
 
 // gradCase runs program p on the model and on the real code, back-propagates
@@ -81,12 +82,12 @@ func gradCase(p *ref.Program, root int, o gradOpts) core.Verdict {
 		}
 		grads, _ = p.Backward(vals, root, nil, false)
 	}
-	mism := compareGradsOpt(p, ts, vals, grads, o.noValue)
+	mism := compareGradsOpt(p, ts, vals, grads, o)
 	if mism == "" {
 		return core.Verdict{OK: true}
 	}
 	if o.allowKF {
-		if alt := avgModelGrads(p, root); alt != nil && compareGradsOpt(p, ts, vals, alt, o.noValue) == "" {
+		if alt := avgModelGrads(p, root); alt != nil && compareGradsOpt(p, ts, vals, alt, o) == "" {
 			return core.Verdict{KF: kfBroadcastAvg, Detail: mism, Data: p}
 		}
 	}
@@ -168,12 +169,12 @@ func seqGradCase(p *ref.Program, roots []int, o gradOpts) core.Verdict {
 			return core.Verdict{Detail: fmt.Sprintf("BackPropagate(t%d) failed: %v", r, err), Data: p}
 		}
 	}
-	mism := compareGradsOpt(p, ts, vals, sum(false), o.noValue)
+	mism := compareGradsOpt(p, ts, vals, sum(false), o)
 	if mism == "" {
 		return core.Pass()
 	}
 	if o.allowKF {
-		if compareGradsOpt(p, ts, vals, sum(true), o.noValue) == "" {
+		if compareGradsOpt(p, ts, vals, sum(true), o) == "" {
 			return core.Verdict{KF: kfBroadcastAvg, Detail: mism, Data: p}
 		}
 	}
@@ -181,10 +182,11 @@ func seqGradCase(p *ref.Program, roots []int, o gradOpts) core.Verdict {
 }
 
 func compareGrads(p *ref.Program, ts []tensor.Tensor, vals, grads []*ref.T) string {
-	return compareGradsOpt(p, ts, vals, grads, nil)
+	return compareGradsOpt(p, ts, vals, grads, gradOpts{})
 }
 
-func compareGradsOpt(p *ref.Program, ts []tensor.Tensor, vals, grads []*ref.T, noValue map[int]bool) string {
+func compareGradsOpt(p *ref.Program, ts []tensor.Tensor, vals, grads []*ref.T, o gradOpts) string {
+	noValue := o.noValue
 	scale := scaleOf(append(append([]*ref.T{}, vals...), grads...)...)
 	for i := range ts {
 		g := ts[i].Gradient()
@@ -206,6 +208,12 @@ func compareGradsOpt(p *ref.Program, ts []tensor.Tensor, vals, grads []*ref.T, n
 		if noValue[i] {
 			if !ref.SameShape(got.Shape, vals[i].Shape) {
 				return fmt.Sprintf("gradient of tensor %d has shape %v, tensor has %v", i, got.Shape, vals[i].Shape)
+			}
+			continue
+		}
+		if o.elementwise {
+			if okc, msg := core.RelClose(got, grads[i], 1e-7, 1e-6); !okc {
+				return fmt.Sprintf("gradient of tensor %d (shape %v): %s (got %v, expected %v)", i, vals[i].Shape, msg, got, grads[i])
 			}
 			continue
 		}
